@@ -462,6 +462,29 @@ static void run_stack(const char* subj, Rng& g, long nops, std::size_t block, Ma
         { // capacity queries
             emit(fmt("%s capacity_left", subj), fmt("num %zu", s.capacity_left()), stack_state(s));
             emit(fmt("%s next_capacity", subj), fmt("num %zu", s.next_capacity()), stack_state(s));
+            { // C18: the reported maxima are true upper bounds: a request above them never succeeds. The requests are part
+              // of the history (the model sees them): a rejected request may still make the stack take its next block,
+              // memory_stack::allocate checks the size against the block it has just acquired
+                std::size_t mn = traits::max_node_size(s);
+                if (mn != s.next_capacity() || traits::max_array_size(s) != s.next_capacity())
+                    O->fail("C18 memory_stack: traits maxima differ from next_capacity()");
+                {
+                    void*       p = nullptr;
+                    std::string r = guarded([&] { p = traits::allocate_node(s, mn + 1, 1); });
+                    if (r.empty())
+                        O->fail(fmt("C18 memory_stack: a request above the reported max_node_size succeeded (%p)", p));
+                    emit(fmt("%s alloc_node %zu 1", subj, mn + 1), r.empty() ? fmt("ok %zu", R->off(p)) : r, stack_state(s));
+                }
+                {
+                    std::size_t ma = traits::max_array_size(s), cnt = ma / 4 + 1;
+                    void*       p = nullptr;
+                    std::string r = guarded([&] { p = traits::allocate_array(s, cnt, 4, 1); });
+                    if (r.empty())
+                        O->fail(fmt("C18 memory_stack: a request above the reported max_array_size succeeded (%p)", p));
+                    emit(fmt("%s alloc_array %zu 4 1", subj, cnt), r.empty() ? fmt("ok %zu", R->off(p)) : r, stack_state(s));
+                }
+                check_net("after requests above the reported maxima");
+            }
         }
         else if (!std::is_same<typename Stack::allocator_type, static_block_allocator>::value && other < 0 && g.chance(50))
         { // a second stack on the same upstream becomes the primary; the older one is move-ASSIGNED into it later
